@@ -18,6 +18,7 @@ func (r *Run) fn(name string) *ssa.Function {
 		r.Undecided("anchor", name, "-", "anchor function "+name+" does not resolve in the current tree (renamed or removed): the rule tables must be re-confirmed")
 		return nil
 	}
+	r.Anchors[f] = true
 	return f
 }
 
@@ -27,6 +28,7 @@ func (r *Run) fnOpt(name string) *ssa.Function {
 	if f == nil || len(f.Blocks) == 0 {
 		return nil
 	}
+	r.Anchors[f] = true
 	return f
 }
 
@@ -62,7 +64,7 @@ func (r *Run) requireCut(rule, key string, from *ssa.BasicBlock, site ssa.Instru
 		rs = append(rs, regexp.MustCompile(s))
 	}
 	matched := map[string]bool{}
-	ok := r.P.RequiresCut(from, site.Block(), func(a Atom) bool {
+	cutEdge := func(a Atom) bool {
 		k := a.Key()
 		for _, x := range rs {
 			if x.MatchString(k) {
@@ -71,7 +73,18 @@ func (r *Run) requireCut(rule, key string, from *ssa.BasicBlock, site ssa.Instru
 			}
 		}
 		return false
-	})
+	}
+	ok := r.P.RequiresCut(from, site.Block(), cutEdge)
+	// the site lies in a helper introduced by a refactoring: every path to it also crosses the helper's call site
+	for cur, n := site, 0; !ok && n < 4 && from == cur.Parent().Blocks[0]; n++ {
+		cs := helperSite(cur.Parent())
+		if cs == nil {
+			break
+		}
+		from = cs.Parent().Blocks[0]
+		ok = r.P.RequiresCut(from, cs.Block(), cutEdge)
+		cur = cs
+	}
 	var ms []string
 	for k := range matched {
 		ms = append(ms, k)
@@ -270,7 +283,7 @@ func (P *Prog) ifEdgesFor(fn *ssa.Function, re string) []struct {
 		B *ssa.BasicBlock
 		I int
 	}
-	for _, b := range fn.Blocks {
+	for _, b := range flatBlocks(fn) {
 		if len(b.Instrs) == 0 || len(b.Succs) != 2 {
 			continue
 		}
@@ -383,7 +396,7 @@ func (P *Prog) phiValueEdges(fn *ssa.Function, re string) []struct {
 		B *ssa.BasicBlock
 		I int
 	}
-	for _, b := range fn.Blocks {
+	for _, b := range flatBlocks(fn) {
 		if len(b.Instrs) == 0 || len(b.Succs) != 2 {
 			continue
 		}
